@@ -210,9 +210,10 @@ def find(
             # These modify the file_platform instance, but we throw away
             # the active nodes after processing is complete.
             for include in e["include_files"]:
+                # Look beside the physical file, however its path is spelled.
                 include_file = file_platform.find_include_file(
                     include,
-                    os.path.dirname(e["file"]),
+                    os.path.dirname(state._get_realpath(e["file"])),
                 )
                 if include_file:
                     # include files use the same language as the file itself,
